@@ -46,7 +46,7 @@ def region(case_meta):
 def gen(ctx, rnd, quick):
     cases = []   # (line, meta)
     flagsets = [R.STD] * 6 + [R.STD & ~(1 << FB["CLEANSTACK"]), R.STD & ~(1 << FB["NULLFAIL"]), R.STD & ~(1 << FB["LOW_S"]),
-                              R.STD & ~(1 << FB["SIGPUSHONLY"]), R.STD & ~(1 << FB["WITNESS_PUBKEYTYPE"]), R.STD & ~(1 << FB["MINIMALIF"])]
+                              R.STD | (1 << FB["SIGPUSHONLY"]), R.STD & ~(1 << FB["WITNESS_PUBKEYTYPE"]), R.STD & ~(1 << FB["MINIMALIF"])]
     n = 25 if quick else 600
     for kind in S.KINDS:
         for rep in range(n):
@@ -97,6 +97,21 @@ def gen(ctx, rnd, quick):
         wsf = bytes([0x00])
         add("witness-flag-off", b"\x00\x20" + P.sha256(wsf), b"", [wsf],
             flags=R.STD & ~(1 << FB["WITNESS"]) & ~(1 << FB["CLEANSTACK"]) & ~(1 << FB["TAPROOT"]), finding="F-C03-witness-flag-off")
+        # push-size limit applies to every push of every script, executed or not (the scriptPubKey is not pre-screened)
+        for nbytes in (519, 520, 521, 600):
+            blob = P.push(rb(rnd, nbytes))
+            add("spk-unexecuted-push-%d" % nbytes, bytes([0x00, 0x63]) + blob + bytes([0x68, 0x51]))
+            add("spk-executed-push-%d" % nbytes, blob + bytes([0x75, 0x51]))
+            add("scriptsig-push-%d" % nbytes, bytes([0x75, 0x51]), blob)
+        # SIGPUSHONLY (not part of the standard flags) and the script size limit are independent
+        PUSHONLY = R.STD | (1 << FB["SIGPUSHONLY"])
+        bigsig = (bytes([0x4d, 0xf4, 0x01]) + rb(rnd, 500)) * 20      # 10060 bytes, push-only
+        oksig = (bytes([0x4d, 0xf4, 0x01]) + rb(rnd, 500)) * 19 + P.push(rb(rnd, 440))   # 9999 bytes
+        for fl, nm in ((R.STD & ~(1 << FB["CLEANSTACK"]), "std"), (PUSHONLY & ~(1 << FB["CLEANSTACK"]), "pushonly")):
+            add("oversize-pushonly-scriptsig-" + nm, bytes([0x51]), bigsig, flags=fl)
+            add("maxsize-pushonly-scriptsig-" + nm, bytes([0x51]), oksig + bytes([0x00]) * 1, flags=fl)
+            add("nonpush-scriptsig-" + nm, bytes([0x61]), bytes([0x51, 0x76, 0x75]), flags=fl)
+            add("oversize-nonpush-scriptsig-" + nm, bytes([0x51]), bigsig + bytes([0x61]), flags=fl)
         add("bare-true", bytes([0x51]))
         add("bare-false", bytes([0x00]))
         add("bare-empty-stack", bytes([0x61]))
@@ -197,20 +212,16 @@ def doc_pairs():
     return out
 
 
-def run(ctx):
-    rnd = random.Random(ctx.seed * 3 + 3)
-    quick = ctx.tier == "quick"
-    cases = gen(ctx, rnd, quick)
-    for (base, tx, txin) in doc_pairs():
-        line = "SPEND %s %s -1 %d 0 - 0" % (tx.encode().hex(), txin.encode().hex(), R.STD)
-        cases.append((line, {"kind": "doc:" + base, "label": "real-chain", "built_valid": "invalid" not in base, "flags": R.STD}))
+def verdict_compare(ctx, stream, cases):
+    """cases: (SPEND line, meta).  Correspondence of set-up and every step (implementation vs model), and the verdict the
+    finished session amounts to against consensus validation (specification)."""
     lines = [c[0] for c in cases]
     impl = ctx.harness_sharded(lines)
     model = ctx.driver_sharded(lines, "model")
     spec = ctx.driver_sharded(lines, "spec")
     strip = lambda l: re.sub(r" verdict=\S+$", "", l)
     # 1. correspondence: set-up and every step
-    ctx.compare("spend-session", lines, impl, [strip(m) for m in model], None, nontrivial=lambda c, im: "steps=" in im)
+    ctx.compare(stream + "-session", lines, impl, [strip(m) for m in model], None, nontrivial=lambda c, im: "steps=" in im)
     # 2. the verdict: session (implementation) / session (model) / consensus (specification)
     hist = {}
     nbad = 0
@@ -227,7 +238,7 @@ def run(ctx):
             if meta.get("built_valid") and vi != "VALID":
                 nbad += 1
                 if nbad <= 3:
-                    ctx.violation(line, {"stream": "spend-verdict", "impl": im, "model": mo, "spec": sp, "meta": meta,
+                    ctx.violation(line, {"stream": stream + "-verdict", "impl": im, "model": mo, "spec": sp, "meta": meta,
                                          "why": "a spend built and signed by the independent signer is rejected by implementation, model and specification alike: the generator or all three are wrong"})
             continue
         fid = meta.get("finding")
@@ -237,14 +248,58 @@ def run(ctx):
         nbad += 1
         if nbad <= 5:
             if vi != vs:
-                ctx.violation(line, {"stream": "spend-verdict", "impl": im, "model": mo, "spec": sp, "meta": meta, "impl_verdict": vi, "spec_verdict": vs,
+                ctx.violation(line, {"stream": stream + "-verdict", "impl": im, "model": mo, "spec": sp, "meta": meta, "impl_verdict": vi, "spec_verdict": vs,
                                      "why": "the session's outcome differs from consensus validation of that input"})
             else:
-                ctx.violation(line, {"stream": "spend-verdict", "impl": im, "model": mo, "spec": sp, "meta": meta,
-                                     "why": "correspondence:spend-verdict broken (model verdict differs); implementation agrees with the specification"},
+                ctx.violation(line, {"stream": stream + "-verdict", "impl": im, "model": mo, "spec": sp, "meta": meta,
+                                     "why": "correspondence:" + stream + "-verdict broken (model verdict differs); implementation agrees with the specification"},
                               suffix="no-failing-input-found")
-    ctx.count("spend-verdict", len(cases))
-    ctx.notes.append("verdict histogram: " + "; ".join(f"{k}:{v}" for k, v in sorted(hist.items())))
+    ctx.count(stream + "-verdict", len(cases))
+    ctx.notes.append("verdict histogram (" + stream + "): " + "; ".join(f"{k}:{v}" for k, v in sorted(hist.items())))
+
+
+def limit_cases(rnd):
+    """spends whose validity turns on one of the consensus limits, in scripts the start-up code does not pre-screen"""
+    cases = []
+    def add(name, spk, ss=b"", wit=(), flags=R.STD, **kw):
+        tx, ftx = S.custom(rnd, spk, ss, wit, **kw)
+        cases.append((S.spend_line(tx, ftx, flags), {"kind": "limit", "label": name, "flags": flags}))
+    NOCLEAN = R.STD & ~(1 << FB["CLEANSTACK"])
+    PUSHONLY = (R.STD | (1 << FB["SIGPUSHONLY"])) & ~(1 << FB["CLEANSTACK"])
+    for nbytes in (519, 520, 521, 522, 1000):
+        blob = P.push(rb(rnd, nbytes))
+        add("spk-unexecuted-push-%d" % nbytes, bytes([0x00, 0x63]) + blob + bytes([0x68, 0x51]))
+        add("spk-else-branch-push-%d" % nbytes, bytes([0x51, 0x63, 0x51, 0x67]) + blob + bytes([0x68]))
+        add("spk-executed-push-%d" % nbytes, blob + bytes([0x75, 0x51]))
+        add("scriptsig-push-%d" % nbytes, bytes([0x75, 0x51]), blob)
+    for nops in (200, 201, 202):
+        add("spk-opcount-%d" % nops, bytes([0x61]) * (nops - 0) + bytes([0x51]) if nops else b"", flags=NOCLEAN)
+        add("scriptsig-and-spk-opcount-%d" % nops, bytes([0x61]) * nops + bytes([0x51]), bytes([0x61]) * 150, flags=NOCLEAN)
+    for n in (9999, 10000, 10001):
+        body = (bytes([0x4d, 0xf4, 0x01]) + rb(rnd, 500)) * 19          # 9557 bytes of pushes
+        pad = n - len(body) - 3
+        sig = body + bytes([0x4d]) + (pad).to_bytes(2, "little") + rb(rnd, pad) if pad <= 520 else body
+        spk_drop = bytes([0x6d]) * 10 + bytes([0x51])
+        for fl, nm in ((NOCLEAN, "std"), (PUSHONLY, "pushonly")):
+            add("scriptsig-size-%d-%s" % (len(sig), nm), spk_drop, sig, flags=fl)
+    bigspk = (bytes([0x4d, 0x08, 0x02]) + bytes(520)) * 19 + bytes([0x6d]) * 9 + bytes([0x75, 0x51])
+    add("spk-size-%d" % len(bigspk), bigspk, flags=NOCLEAN)
+    bigspk2 = (bytes([0x4d, 0x08, 0x02]) + bytes(520)) * 20 + bytes([0x6d]) * 10 + bytes([0x51])
+    add("spk-size-%d" % len(bigspk2), bigspk2, flags=NOCLEAN)
+    for k in (999, 1000, 1001):
+        add("stack-size-%d" % k, bytes([0x51]) * (k - 500) + bytes([0x6d]) * 0, bytes([0x51]) * 500, flags=NOCLEAN)
+    return cases
+
+
+def run(ctx):
+    rnd = random.Random(ctx.seed * 3 + 3)
+    quick = ctx.tier == "quick"
+    cases = gen(ctx, rnd, quick)
+    for (base, tx, txin) in doc_pairs():
+        line = "SPEND %s %s -1 %d 0 - 0" % (tx.encode().hex(), txin.encode().hex(), R.STD)
+        cases.append((line, {"kind": "doc:" + base, "label": "real-chain", "built_valid": "invalid" not in base, "flags": R.STD}))
+    cases += limit_cases(rnd)
+    verdict_compare(ctx, "spend", cases)
 
 
 def replay(ctx, case):
